@@ -44,6 +44,16 @@ func histJobs(shapes []histShape, steps int, force, crash, rm int) []jobSpec {
 	return out
 }
 
+// indJobs: the inductive-step harness on each shape.
+func indJobs(shapes []histShape) []jobSpec {
+	var out []jobSpec
+	for _, sh := range shapes {
+		p := map[string]string{"spokfile": sh.spokfile, "files": sh.files, "globfiles": sh.globfiles, "requests": sh.requests, "force": "1"}
+		out = append(out, jobSpec{Name: fmt.Sprintf("InductiveStep[%s]", sh.name), Pkg: "indh", Func: "Step", Params: p, Opts: interp.Options{Budget: 40_000_000}})
+	}
+	return out
+}
+
 var runAssumptions = []string{
 	"file system: in-memory model (harness/vfs) behind os.Stat/ReadFile/WriteFile/MkdirAll/Open/(*File).Stat/WriteTo/Close, os.DirFS; WriteFile = truncate then write",
 	"SHA-256: an injective function of its input (interning model, harness/stubs): equal inputs give equal digests, different inputs different digests ('up to collisions')",
@@ -60,6 +70,7 @@ func histCheck(id, title string, force, crash int, explain string) *checkDef {
 		ID: id, Pkg: "runh", Level: "other", NativeCheck: true, UseStubs: true, OnlyPrefix: id + "/",
 		Explanation: "Bounded symbolic execution of histories of invocations of the real file.New + SpokFile.Run (buildGraph, dag.Sort, run, cache.Init/Load/Dump/Get/Set, hash.Concurrent.Hash, task.Task.Run) from an empty project: per step the dependency file contents (one symbolic byte each), the presence of glob-matched files, removal of the cache, --force, the request list and every command's exit status are symbolic; " +
 			"a ghost record of 'inputs at the last successful completion' is kept by the harness and the step assertions are discharged by the solver. " + explain +
+			" In addition the inductive step (package indh): from an arbitrary state satisfying the representation invariant (every recorded digest is the real digest of the task's inputs at its last success; every such success is recorded unless the task has since failed on exactly those inputs, in which case nothing is recorded) one invocation with symbolic edits, request, --force and statuses satisfies the step assertions and re-establishes the invariant, so the step assertions hold for histories of any length made of complete invocations." +
 			" Violating histories are replayed natively in a temporary directory with real files, real SHA-256, real JSON and the real code.",
 		Bounds: func(tier string) string {
 			if crash == 1 {
@@ -104,6 +115,13 @@ func histCheck(id, title string, force, crash int, explain string) *checkDef {
 				}
 				return out
 			}
+			// the inductive step: one invocation from an arbitrary state satisfying the
+			// representation invariant (package indh) - covers histories of any length
+			indShapes := histShapes
+			if tier == "thorough" {
+				indShapes = append(append([]histShape{}, histShapes...), histShapesThorough...)
+			}
+			out = append(out, indJobs(indShapes)...)
 			// every feature together on short histories
 			out = append(out, histJobs(histShapes, 2, 1, 0, 1)...)
 			// three steps with one feature at a time
